@@ -274,10 +274,11 @@ def gen_cases(run, n):
             cases.append({"op": "enc", "v": rand_jvalue(rng, 3)})
         elif r < 0.96:
             cases.append({"op": "enc", "v": rand_nonrep(rng)})
-        elif r < 0.985:
-            cases.append({"op": "enc", "v": rand_jscalar(rng), "wrap": [rng.choice([1, 60, 125, 126]), rng.choice("ao")]})
         else:
-            cases.append({"op": "enc", "v": rand_jvalue(rng, 1), "wrap": [rng.choice([100, 125, 126, 127]), rng.choice("ao")]})
+            # deep nesting; the levels next to serde_json's limit (127 passes, 128 is the recorded finding) are also
+            # in the corpus, and a 126-level pretty text is 30 kB, so keep those rare
+            d = rng.choice([125, 126, 127]) if rng.random() < 0.06 else rng.choice([1, 5, 20, 40, 60])
+            cases.append({"op": "enc", "v": rand_jvalue(rng, 1), "wrap": [d, rng.choice("ao")]})
     for _ in range(n - n_enc):
         cases.append(rand_parse_case(rng))
     return cases
